@@ -84,6 +84,14 @@ def setup(ns, ctx, cfg):
         if cfg["warm"] == "remove":
             c.add(*extra)                      # present during the first computation, removed before the second
         st.capture_only = True
+        if cfg["warm"] == "other-continuum":
+            # the same dissimilarity object is first used on ANOTHER continuum (a copy with one more unit)
+            other_c = c.copy()
+            other_c.add(extra[0], extra[1], next(iter(c.categories)) if len(c.categories) else None)    # a label the dissimilarity knows
+            try:
+                (other_c.get_best_soft_alignment if cfg.get("mode", "best") == "soft" else other_c.get_best_alignment)(D)
+            except cpstub.CaptureDone:
+                pass
         try:
             (c.get_best_soft_alignment if cfg.get("warm_mode", cfg.get("mode", "best")) == "soft" else c.get_best_alignment)(D)
         except cpstub.CaptureDone:
@@ -315,6 +323,10 @@ def _replay_pipeline(case):
         try:
             if case["warm"] == "remove":
                 c.add(ANN[0], extra_u.segment, extra_u.annotation)
+            if case["warm"] == "other-continuum":
+                oc = c.copy()
+                oc.add(ANN[0], extra_u.segment, next(iter(c.categories)) if len(c.categories) else None)
+                (oc.get_best_soft_alignment if soft else oc.get_best_alignment)(D)
             (c.get_best_soft_alignment if soft else c.get_best_alignment)(D)
             if case["warm"] == "remove":
                 c.remove(ANN[0], extra_u)
